@@ -729,6 +729,48 @@ def run_deep_paths(ctx, binary, base):
     return n
 
 
+def import_write_cases():
+    """`import <path>` binds the module to the file stem of the path: when that name is a constant, a class or an already
+    imported module, the import is a write to it and must be rejected, however the path is spelled.
+    -> [(id, files with the protected name declared first, files of the twin without it)]"""
+    mod = "export const favorite: str = \"The Kite Runner\"\n"
+    other = "export const favorite: str = \"Harry Potter\"\n"
+    out = []
+    protect = {"const": "const book = \"Dune\"\n", "class": "class book {\n  constructor(self) {}\n}\n", "module": "import shelf/book\n"}
+    for pk, decl in sorted(protect.items()):
+        for spelled in ("book", "./book", "./././book", "sub/../book"):
+            for where in ("same", "block"):
+                imp = "import %s\n" % spelled
+                if where == "block":
+                    imp = "if true {\n  import %s\n}\n" % spelled
+                body = "print \"MARK\"\n%s%sprint \"END\"\n"
+                files = {"book.ms": mod, "shelf/book.ms": other, "sub/x.ms": "export const q = 1\n"}
+                a = dict(files, **{"main.ms": body % (decl, imp)})
+                b = dict(files, **{"main.ms": body % ("", imp)})
+                out.append(("%s then import %s (%s)" % (pk, spelled, where), a, b))
+    return out
+
+
+def run_import_writes(ctx, binary, base):
+    cases = import_write_cases()
+
+    def one(c):
+        return run_files(binary, base, c[1]), run_files(binary, base, c[2])
+    n = legal = 0
+    for (cid, fa, fb), (ra, rb) in zip(cases, programs.pmap(one, cases)):
+        n += 1
+        if verdict(*rb) != "accepted":
+            continue                # this spelling of the import is not legal by itself
+        legal += 1
+        va = verdict(*ra)
+        if va != "rejected" or "MARK" in ra[1]:
+            ctx.report("const-write-accepted:import", "`%s`: an import that rebinds a protected name is %s: %s" % (cid, va, (ra[1] + ra[2])[-200:]),
+                       {"form": cid, "files": fa, "observed": {"rc": ra[0], "stdout": ra[1][-400:], "stderr": ra[2][-400:]},
+                        "how": "mscript run main.ms -q: must fail to compile, nothing printed"})
+    ctx.cov["import_as_write"] = {"cases": n, "legal_import_spellings": legal}
+    return n
+
+
 def run(ctx):
     ok = core.coq_props(ctx, "Props/C10.v")
     binary = core.build_repo()
@@ -883,8 +925,8 @@ def run(ctx):
     if n_app < 0.6 * len(triples) or (r_acc + r_rej) < 0.8 * nrand:
         ctx.report("generator-degraded", "only %d of %d triples are applicable / %d of %d random programs gave a verdict: the templates no longer match the language"
                    % (n_app, len(triples), r_acc + r_rej, nrand), {"inapplicable": inapplicable[:20]}, found_input=False)
-    ndeep = run_deep_paths(ctx, binary, base)
-    spec_fail += sum(1 for v in ctx.viol if v[0] == "const-write-accepted:deep-path")
+    ndeep = run_deep_paths(ctx, binary, base) + run_import_writes(ctx, binary, base)
+    spec_fail += sum(1 for v in ctx.viol if v[0] in ("const-write-accepted:deep-path", "const-write-accepted:import"))
     ctx.cov["evaluations"] = len(triples) + sum(1 for t in triples if t["ntexts"]) + nrand + 2 * ndeep
     ctx.cov["triples"] = len(triples)
     ctx.cov["applicable"] = n_app
